@@ -18,9 +18,10 @@ SLIST_HEAD(backend_list, ec_backend);
 extern struct backend_list active_instances;
 extern int next_backend_desc;
 extern struct ec_backend_common backend_null, backend_flat_xor_hd, backend_isa_l_rs_vand,
-       backend_liberasurecode_rs_vand, backend_isa_l_rs_cauchy, backend_shss;
+       backend_liberasurecode_rs_vand, backend_isa_l_rs_cauchy, backend_shss, backend_jerasure_rs_vand, backend_jerasure_rs_cauchy, backend_libphazr;
 
-static int isal_ok, shss_ok;
+static int isal_ok, shss_ok, jer_ok, phazr_ok;
+#define IS_JER(be) ((be) == EC_BACKEND_JERASURE_RS_VAND || (be) == EC_BACKEND_JERASURE_RS_CAUCHY)
 
 static int registry_len(void)
 {
@@ -203,6 +204,27 @@ static void c13_null_and_ranges(live_t *L)
     for (int mask = 1; mask < 8; mask++) if (BEGIN("fragments_needed|null-mask=%d", mask)) {
         q_begin(&q); int R[2] = { 0, -1 }, X[1] = { -1 }, N[40];
         refuse("C13", name, liberasurecode_fragments_needed(desc, (mask & 1) ? NULL : R, (mask & 2) ? NULL : X, (mask & 4) ? NULL : N)); FIN(); }
+    /* index lists naming a fragment the stripe does not have (k+m .. 31: representable in the library's 32-bit index sets):
+     * whatever the answer, nothing outside the lists and the k+m+1 output slots is touched; an answer of 0 is a well-formed list */
+    { int bad[] = { n, n + 1, 31, 30 };
+      for (size_t i = 0; i < sizeof bad / sizeof bad[0]; i++) for (int where = 0; where < 3; where++) {
+        if (bad[i] < n || bad[i] > 31) continue;
+        if (!BEGIN("fragments_needed|index=%d|in=%s", bad[i], where == 0 ? "rebuild" : where == 1 ? "exclude" : "both")) continue;
+        q_begin(&q);
+        int *R = g_alloc(sizeof(int) * 3, G_END), *X = g_alloc(sizeof(int) * 3, G_END), *N = g_alloc(sizeof(int) * (size_t)(n + 1), G_END);
+        R[0] = where == 1 ? 0 : bad[i]; R[1] = where == 2 ? 0 : -1; R[2] = -1;
+        X[0] = where == 0 ? -1 : bad[i]; X[1] = -1; X[2] = -1;
+        for (int j = 0; j <= n; j++) N[j] = 0x7f7f7f7f;
+        g_ro(R); g_ro(X);
+        int rc = liberasurecode_fragments_needed(desc, R, X, N);
+        mon_count("evaluations", 1); mon_count("needed_with_index_beyond_the_stripe", 1);
+        if (rc > 0) mon_viol("C13", "positive-rc", "%s returned %d", name, rc);
+        if (rc == 0) { int len = -1; for (int j = 0; j <= n; j++) if (N[j] == -1) { len = j; break; }
+                       if (len < 0) mon_viol("C13", "needed-not-terminated", "%s returned 0 without a terminator in k+m+1 slots", name);
+                       else for (int j = 0; j < len; j++) if (N[j] < 0 || N[j] >= n) { mon_viol("C13", "needed-out-of-range", "%s returned 0 with index %d in its answer", name, N[j]); break; } }
+        g_free(R); g_free(X); g_free(N);
+        FIN(); }
+    }
     for (int mask = 1; mask < 4; mask++) if (BEGIN("get_fragment_metadata|null-mask=%d", mask)) {
         q_begin(&q); fragment_metadata_t md;
         refuse("C13", name, liberasurecode_get_fragment_metadata((mask & 1) ? NULL : lst[0], (mask & 2) ? NULL : &md)); FIN(); }
@@ -257,11 +279,14 @@ static void run_invalid(void)
         { EC_BACKEND_LIBERASURECODE_RS_VAND, 4, 2, 2, 0, CHKSUM_CRC32 }, { EC_BACKEND_FLAT_XOR_HD, 10, 5, 3, 0, CHKSUM_NONE },
         { EC_BACKEND_NULL, 4, 2, 2, 0, CHKSUM_CRC32 }, { EC_BACKEND_ISA_L_RS_VAND, 4, 2, 2, 0, CHKSUM_CRC32 }, { EC_BACKEND_ISA_L_RS_CAUCHY, 6, 3, 3, 0, CHKSUM_NONE },
         { EC_BACKEND_LIBERASURECODE_RS_VAND, 1, 1, 1, 0, CHKSUM_NONE }, { EC_BACKEND_FLAT_XOR_HD, 6, 6, 4, 0, CHKSUM_CRC32 }, { EC_BACKEND_SHSS, 4, 2, 2, 0, CHKSUM_CRC32 },
+        { EC_BACKEND_JERASURE_RS_VAND, 4, 2, 2, 0, CHKSUM_CRC32 }, { EC_BACKEND_JERASURE_RS_CAUCHY, 3, 2, 2, 0, CHKSUM_NONE }, { EC_BACKEND_LIBPHAZR, 4, 2, 1, 0, CHKSUM_CRC32 },
     };
     for (size_t pi = 0; pi < sizeof pool / sizeof pool[0]; pi++) {
         cfg_t c = pool[pi];
         if (!isal_ok && (c.be == EC_BACKEND_ISA_L_RS_VAND || c.be == EC_BACKEND_ISA_L_RS_CAUCHY)) continue;
         if (!shss_ok && c.be == EC_BACKEND_SHSS) continue;
+        if (!jer_ok && IS_JER(c.be)) continue;
+        if (!phazr_ok && c.be == EC_BACKEND_LIBPHAZR) continue;
         live_t L; int ok = 0; int destroyed = -1;
         char ck[96]; cfg_key(&c, ck, sizeof ck);
         if (mon_case_all("%s|setup", ck)) {
@@ -313,6 +338,8 @@ static void run_invalid(void)
     /* create: NULL args, backend ids */
     { qp_t q; static const int ids[] = { -1, 9, 10, 255, 1000, INT_MAX, 1, 2, 8, INT_MIN };      /* out of range, or backends whose library is not installed (jerasure, libphazr) */
       for (size_t i = 0; i < sizeof ids / sizeof ids[0]; i++) {
+        /* (ids of backends whose library - or verif-owned stand-in - can be loaded are not "bad": skipped) */
+        if (ids[i] >= 0 && ids[i] < EC_BACKENDS_MAX && liberasurecode_backend_available((ec_backend_id_t)ids[i])) { mon_count0("bad_backend_ids_skipped_because_available", 1); continue; }
         if (mon_case("create|backend-id=%d", ids[i])) {
             q_begin(&q);
             struct ec_args a; memset(&a, 0, sizeof a); a.k = 4; a.m = 2; a.hd = 2; a.ct = CHKSUM_NONE;
@@ -330,11 +357,14 @@ static void run_invalid(void)
             q_begin(&q); refuse("C13", "instance_create(NULL args)", liberasurecode_instance_create((ec_backend_id_t)be, NULL)); q_zero(&q, "C13", "create(NULL)"); mon_end(); }
     }
     /* shape box */
-    static const int bes[] = { EC_BACKEND_NULL, EC_BACKEND_LIBERASURECODE_RS_VAND, EC_BACKEND_FLAT_XOR_HD, EC_BACKEND_ISA_L_RS_VAND, EC_BACKEND_ISA_L_RS_CAUCHY };
+    static const int bes[] = { EC_BACKEND_NULL, EC_BACKEND_LIBERASURECODE_RS_VAND, EC_BACKEND_FLAT_XOR_HD, EC_BACKEND_ISA_L_RS_VAND, EC_BACKEND_ISA_L_RS_CAUCHY,
+                               EC_BACKEND_JERASURE_RS_VAND, EC_BACKEND_JERASURE_RS_CAUCHY, EC_BACKEND_LIBPHAZR };
     static const int ws[] = { 0, -1, 4, 8, 16, 32, 64, 7, 63, 1 };
-    for (size_t bi = 0; bi < 5; bi++) {
+    for (size_t bi = 0; bi < 8; bi++) {
         int be = bes[bi];
         if (!isal_ok && (be == EC_BACKEND_ISA_L_RS_VAND || be == EC_BACKEND_ISA_L_RS_CAUCHY)) continue;
+        if (!jer_ok && IS_JER(be)) continue;
+        if (!phazr_ok && be == EC_BACKEND_LIBPHAZR) continue;
         for (int k = -1; k <= 33; k++) for (int m = -1; m <= 33; m++) {
             int nhd = be == EC_BACKEND_FLAT_XOR_HD ? 8 : 1;
             for (int hi = 0; hi < nhd; hi++) {
@@ -353,7 +383,9 @@ static void run_invalid(void)
                         mon_count("shapes_accepted", 1);
                         if (must_refuse) mon_viol("C13", "unsupported-shape-accepted", "create accepted an unsupported shape (descriptor %d)", d);
                         cfg_t c = { be, k, m, hd, w, (int)a.ct };
-                        c13_full_cycle(&c, d);
+                        /* (bit-matrix code: the stand-in inverts a (k*w)^2 bit matrix per decode; the widest shapes are only created and destroyed) */
+                        if (be == EC_BACKEND_JERASURE_RS_CAUCHY && k * cfg_jer_w(&c) > 96) mon_count("shapes_accepted_not_cycled_too_wide_for_the_standin", 1);
+                        else c13_full_cycle(&c, d);
                         int rc = liberasurecode_instance_destroy(d);
                         if (rc != 0) mon_viol("C13", "destroy-failed", "destroy of an accepted shape returned %d", rc);
                     } else if (d == 0) mon_viol("C13", "create-returned-zero", "create returned 0 (neither a descriptor nor an error)");
@@ -430,9 +462,10 @@ static void hist_step(hist_t *h, int a, const char *hk)
         h->s[sl].live = 1;
         if (d > 0x7ffffff0 || d < 8) mon_count("creates_near_wrap", 1);
     } else if (a == A_FAILED_CREATE) {
+        /* (jerasure_rs_vand with w = 7: backend not available, or - with the stand-in library - a word size its init refuses) */
         static const struct { int be, k, m, hd; } bad[] = { { EC_BACKEND_FLAT_XOR_HD, 4, 4, 3 }, { EC_BACKEND_JERASURE_RS_VAND, 4, 2, 2 }, { EC_BACKEND_LIBERASURECODE_RS_VAND, 30, 10, 10 }, { 99, 4, 2, 2 }, { EC_BACKEND_FLAT_XOR_HD, 10, 5, 5 } };
         int w = (int)(h->step % 5);
-        cfg_t c = { bad[w].be, bad[w].k, bad[w].m, bad[w].hd, 0, CHKSUM_NONE };
+        cfg_t c = { bad[w].be, bad[w].k, bad[w].m, bad[w].hd, bad[w].be == EC_BACKEND_JERASURE_RS_VAND ? 7 : 0, CHKSUM_NONE };
         int d = lec_create(&c);
         mon_count("evaluations", 1); mon_count("failed_creates", 1);
         if (d > 0) { mon_viol("C14", "bad-create-accepted", "%s: create of an unsupported configuration returned %d", what, d); liberasurecode_instance_destroy(d); }
@@ -622,15 +655,17 @@ static void run_history_ops(int hidx, int len)
             if (live[sl]) continue;
             static const cfg_t cf[] = { { EC_BACKEND_LIBERASURECODE_RS_VAND, 4, 2, 2, 0, CHKSUM_CRC32 }, { EC_BACKEND_LIBERASURECODE_RS_VAND, 10, 4, 4, 0, CHKSUM_NONE }, { EC_BACKEND_FLAT_XOR_HD, 10, 5, 3, 0, CHKSUM_CRC32 },
                                         { EC_BACKEND_FLAT_XOR_HD, 6, 6, 4, 0, CHKSUM_NONE }, { EC_BACKEND_NULL, 8, 4, 4, 0, CHKSUM_CRC32 }, { EC_BACKEND_ISA_L_RS_VAND, 5, 3, 3, 0, CHKSUM_CRC32 }, { EC_BACKEND_ISA_L_RS_CAUCHY, 4, 4, 4, 0, CHKSUM_CRC32 },
-                                        { EC_BACKEND_LIBERASURECODE_RS_VAND, 1, 1, 1, 0, CHKSUM_CRC32 }, { EC_BACKEND_SHSS, 4, 2, 2, 0, CHKSUM_CRC32 }, { EC_BACKEND_SHSS, 3, 3, 3, 0, CHKSUM_NONE } };
-            cfg_t c = cf[rng_below(&r, shss_ok ? 10 : 8)];
+                                        { EC_BACKEND_LIBERASURECODE_RS_VAND, 1, 1, 1, 0, CHKSUM_CRC32 }, { EC_BACKEND_SHSS, 4, 2, 2, 0, CHKSUM_CRC32 }, { EC_BACKEND_SHSS, 3, 3, 3, 0, CHKSUM_NONE },
+                                        { EC_BACKEND_JERASURE_RS_VAND, 4, 2, 2, 0, CHKSUM_CRC32 }, { EC_BACKEND_JERASURE_RS_CAUCHY, 2, 2, 2, 0, CHKSUM_CRC32 }, { EC_BACKEND_JERASURE_RS_VAND, 3, 3, 3, 8, CHKSUM_NONE },
+                                        { EC_BACKEND_LIBPHAZR, 4, 2, 1, 0, CHKSUM_CRC32 }, { EC_BACKEND_LIBPHAZR, 3, 3, 3, 0, CHKSUM_NONE } };
+            cfg_t c = cf[rng_below(&r, shss_ok ? (jer_ok ? (phazr_ok ? 15 : 13) : 10) : 8)];
             if (!isal_ok && (c.be == EC_BACKEND_ISA_L_RS_VAND || c.be == EC_BACKEND_ISA_L_RS_CAUCHY)) c = cf[0];
             uint64_t len_ = rng_below(&r, 3) == 0 ? rng_below(&r, 3) : 1 + rng_below(&r, 3000);
             if (live_open(&S[sl], &c, len_, MO.seed + (uint64_t)st) == 0) live[sl] = 1; else mon_viol("C16", "create-failed", "%s", what);
             rc_hist("create", live[sl] ? 0 : S[sl].desc);
             expect_zero = 0;
         } else if (op == O_BAD_CREATE) {
-            static const struct { int be, k, m, hd, w; } bad[] = { { EC_BACKEND_FLAT_XOR_HD, 4, 4, 3, 0 }, { EC_BACKEND_JERASURE_RS_VAND, 4, 2, 2, 0 }, { EC_BACKEND_LIBERASURECODE_RS_VAND, 30, 10, 10, 0 }, { 99, 4, 2, 2, 0 }, { EC_BACKEND_FLAT_XOR_HD, 10, 5, 5, 0 }, { EC_BACKEND_NULL, -1, 2, 2, 0 }, { EC_BACKEND_LIBPHAZR, 4, 2, 2, 0 },
+            static const struct { int be, k, m, hd, w; } bad[] = { { EC_BACKEND_FLAT_XOR_HD, 4, 4, 3, 0 }, { EC_BACKEND_JERASURE_RS_VAND, 4, 2, 2, 7 }, { EC_BACKEND_LIBERASURECODE_RS_VAND, 30, 10, 10, 0 }, { 99, 4, 2, 2, 0 }, { EC_BACKEND_FLAT_XOR_HD, 10, 5, 5, 0 }, { EC_BACKEND_NULL, -1, 2, 2, 0 }, { EC_BACKEND_LIBPHAZR, 4, 2, 2, 0 },
                                                                   { EC_BACKEND_ISA_L_RS_VAND, 5, 3, 3, 4 }, { EC_BACKEND_ISA_L_RS_CAUCHY, 4, 4, 4, 64 }, { EC_BACKEND_ISA_L_RS_VAND, 5, 3, 3, 33 }, { EC_BACKEND_NULL, 4, 2, 2, 7 }, { EC_BACKEND_FLAT_XOR_HD, 16, 6, 3, 0 } };
             int w = (int)rng_below(&r, 12);
             if (!isal_ok && (bad[w].be == EC_BACKEND_ISA_L_RS_VAND || bad[w].be == EC_BACKEND_ISA_L_RS_CAUCHY)) w = 0;
@@ -708,7 +743,7 @@ resealed_done: ;
                 if (o2 < 0) break;
                 /* a backend that owns a trailer behind the payload writes it for every fragment it rebuilds: fragments of a
                  * backend without one are too short for that (garbage in, nothing the properties speak about) */
-                if (ref_backend_metadata_bytes(L->c.be) != ref_backend_metadata_bytes(S[o2].c.be)) break;
+                if ((L->c.be == EC_BACKEND_SHSS) != (S[o2].c.be == EC_BACKEND_SHSS) || L->c.be == EC_BACKEND_LIBPHAZR || S[o2].c.be == EC_BACKEND_LIBPHAZR) break;   /* (libphazr: tail size depends on w, hd and the payload) */
                 /* likewise a payload size that is not a multiple of the reader's word size (rs_vand works on 16-bit words and its
                  * own stripes are always even; an ISA-L stripe may be odd): only stripes of the same backend, any shape, are exchanged */
                 if (L->c.be != S[o2].c.be) break;
@@ -1008,13 +1043,17 @@ static void run_oom(void)
     static const cfg_t pool[] = { { EC_BACKEND_LIBERASURECODE_RS_VAND, 4, 2, 2, 0, CHKSUM_CRC32 }, { EC_BACKEND_FLAT_XOR_HD, 10, 5, 3, 0, CHKSUM_NONE }, { EC_BACKEND_FLAT_XOR_HD, 6, 6, 4, 0, CHKSUM_CRC32 },
                                   { EC_BACKEND_NULL, 4, 2, 2, 0, CHKSUM_CRC32 }, { EC_BACKEND_ISA_L_RS_VAND, 4, 2, 2, 0, CHKSUM_CRC32 }, { EC_BACKEND_ISA_L_RS_CAUCHY, 5, 3, 3, 0, CHKSUM_NONE },
                                   { EC_BACKEND_LIBERASURECODE_RS_VAND, 10, 4, 4, 0, CHKSUM_NONE }, { EC_BACKEND_FLAT_XOR_HD, 10, 5, 4, 0, CHKSUM_CRC32 },
-                                  { EC_BACKEND_LIBERASURECODE_RS_VAND, 1, 1, 1, 0, CHKSUM_CRC32 }, { EC_BACKEND_FLAT_XOR_HD, 20, 6, 4, 0, CHKSUM_NONE } };
+                                  { EC_BACKEND_LIBERASURECODE_RS_VAND, 1, 1, 1, 0, CHKSUM_CRC32 }, { EC_BACKEND_FLAT_XOR_HD, 20, 6, 4, 0, CHKSUM_NONE },
+                                  { EC_BACKEND_JERASURE_RS_VAND, 4, 2, 2, 0, CHKSUM_CRC32 }, { EC_BACKEND_JERASURE_RS_CAUCHY, 3, 2, 2, 0, CHKSUM_NONE }, { EC_BACKEND_LIBPHAZR, 4, 2, 1, 0, CHKSUM_CRC32 }, { EC_BACKEND_SHSS, 4, 2, 2, 0, CHKSUM_CRC32 } };
     /* warm-up (lazy libc / ld.so state) */
     { cfg_t c = pool[0]; live_t L; if (live_open(&L, &c, 10, 1) == 0) live_close(&L); if (isal_ok) { cfg_t c2 = pool[4]; if (live_open(&L, &c2, 10, 1) == 0) live_close(&L); } ledger_refresh(); }
     int npool = (int)(sizeof pool / sizeof pool[0]);
     for (int pi = 0; pi < npool; pi++) {
         cfg_t c = pool[pi];
         if (!isal_ok && (c.be == EC_BACKEND_ISA_L_RS_VAND || c.be == EC_BACKEND_ISA_L_RS_CAUCHY)) continue;
+        if (!jer_ok && IS_JER(c.be)) continue;
+        if (!phazr_ok && c.be == EC_BACKEND_LIBPHAZR) continue;
+        if (!shss_ok && c.be == EC_BACKEND_SHSS) continue;
         char ck[96]; cfg_key(&c, ck, sizeof ck);
         int n = c.k + c.m, k = c.k, tol = cfg_tol(&c);
         uint64_t len = (uint64_t)k * 37 + 5;
@@ -1102,11 +1141,14 @@ static void run_registry_oomcreate(const char *prop)
     if (!ledger_available()) { mon_logf("HARNESS oomcreate mode needs the ledger build"); return; }
     OOM_PROP = prop;
     static const cfg_t pool[] = { { EC_BACKEND_LIBERASURECODE_RS_VAND, 4, 2, 2, 0, CHKSUM_CRC32 }, { EC_BACKEND_LIBERASURECODE_RS_VAND, 10, 4, 4, 0, CHKSUM_NONE }, { EC_BACKEND_FLAT_XOR_HD, 10, 5, 3, 0, CHKSUM_CRC32 },
-                                  { EC_BACKEND_ISA_L_RS_VAND, 4, 2, 2, 0, CHKSUM_CRC32 }, { EC_BACKEND_ISA_L_RS_CAUCHY, 5, 3, 3, 0, CHKSUM_NONE }, { EC_BACKEND_NULL, 4, 2, 2, 0, CHKSUM_NONE }, { EC_BACKEND_FLAT_XOR_HD, 6, 6, 4, 0, CHKSUM_NONE } };
+                                  { EC_BACKEND_ISA_L_RS_VAND, 4, 2, 2, 0, CHKSUM_CRC32 }, { EC_BACKEND_ISA_L_RS_CAUCHY, 5, 3, 3, 0, CHKSUM_NONE }, { EC_BACKEND_NULL, 4, 2, 2, 0, CHKSUM_NONE }, { EC_BACKEND_FLAT_XOR_HD, 6, 6, 4, 0, CHKSUM_NONE },
+                                  { EC_BACKEND_JERASURE_RS_VAND, 4, 2, 2, 0, CHKSUM_CRC32 }, { EC_BACKEND_JERASURE_RS_CAUCHY, 2, 1, 1, 0, CHKSUM_NONE }, { EC_BACKEND_LIBPHAZR, 4, 2, 1, 0, CHKSUM_CRC32 } };
     { cfg_t c = pool[0]; live_t L; if (live_open(&L, &c, 10, 1) == 0) live_close(&L); if (isal_ok) { cfg_t c2 = pool[3]; if (live_open(&L, &c2, 10, 1) == 0) live_close(&L); } ledger_refresh(); }
     for (size_t pi = 0; pi < sizeof pool / sizeof pool[0]; pi++) {
         cfg_t c = pool[pi];
         if (!isal_ok && (c.be == EC_BACKEND_ISA_L_RS_VAND || c.be == EC_BACKEND_ISA_L_RS_CAUCHY)) continue;
+        if (!jer_ok && IS_JER(c.be)) continue;
+        if (!phazr_ok && c.be == EC_BACKEND_LIBPHAZR) continue;
         char ck[96]; cfg_key(&c, ck, sizeof ck);
         for (int nsib = 1; nsib <= 2; nsib++) {
             cfg_t c2 = c; if (c.be == EC_BACKEND_LIBERASURECODE_RS_VAND) { c2.k = 3; c2.m = 3; c2.hd = 3; }       /* second sibling: same backend, other shape where there is one */
@@ -1152,6 +1194,8 @@ static struct ec_backend_common *common_of(int be)
     case EC_BACKEND_NULL: return &backend_null; case EC_BACKEND_FLAT_XOR_HD: return &backend_flat_xor_hd; case EC_BACKEND_ISA_L_RS_VAND: return &backend_isa_l_rs_vand;
     case EC_BACKEND_LIBERASURECODE_RS_VAND: return &backend_liberasurecode_rs_vand; case EC_BACKEND_ISA_L_RS_CAUCHY: return &backend_isa_l_rs_cauchy;
     case EC_BACKEND_SHSS: return &backend_shss;
+    case EC_BACKEND_JERASURE_RS_VAND: return &backend_jerasure_rs_vand; case EC_BACKEND_JERASURE_RS_CAUCHY: return &backend_jerasure_rs_cauchy;
+    case EC_BACKEND_LIBPHAZR: return &backend_libphazr;
     }
     return NULL;
 }
@@ -1249,11 +1293,15 @@ static void run_faults(void)
                                   /* more parity than data, k = 1, k = m, widest stripe: loops over k used where m is meant (and vice versa) */
                                   { EC_BACKEND_LIBERASURECODE_RS_VAND, 2, 4, 4, 0, CHKSUM_CRC32 }, { EC_BACKEND_LIBERASURECODE_RS_VAND, 1, 3, 3, 0, CHKSUM_NONE }, { EC_BACKEND_NULL, 3, 7, 7, 0, CHKSUM_NONE },
                                   { EC_BACKEND_ISA_L_RS_CAUCHY, 2, 5, 5, 0, CHKSUM_CRC32 }, { EC_BACKEND_LIBERASURECODE_RS_VAND, 3, 3, 3, 0, CHKSUM_CRC32 }, { EC_BACKEND_LIBERASURECODE_RS_VAND, 12, 20, 20, 0, CHKSUM_NONE },
-                                  { EC_BACKEND_FLAT_XOR_HD, 5, 5, 3, 0, CHKSUM_CRC32 }, { EC_BACKEND_SHSS, 4, 2, 2, 0, CHKSUM_CRC32 }, { EC_BACKEND_SHSS, 2, 4, 4, 0, CHKSUM_NONE } };
+                                  { EC_BACKEND_FLAT_XOR_HD, 5, 5, 3, 0, CHKSUM_CRC32 }, { EC_BACKEND_SHSS, 4, 2, 2, 0, CHKSUM_CRC32 }, { EC_BACKEND_SHSS, 2, 4, 4, 0, CHKSUM_NONE },
+                                  { EC_BACKEND_JERASURE_RS_VAND, 4, 2, 2, 0, CHKSUM_CRC32 }, { EC_BACKEND_JERASURE_RS_VAND, 2, 3, 3, 8, CHKSUM_NONE }, { EC_BACKEND_JERASURE_RS_CAUCHY, 3, 2, 2, 0, CHKSUM_CRC32 },
+                                  { EC_BACKEND_LIBPHAZR, 4, 2, 1, 0, CHKSUM_CRC32 }, { EC_BACKEND_LIBPHAZR, 2, 3, 3, 0, CHKSUM_NONE } };
     for (size_t pi = 0; pi < sizeof pool / sizeof pool[0]; pi++) {
         cfg_t c = pool[pi];
         if (!isal_ok && (c.be == EC_BACKEND_ISA_L_RS_VAND || c.be == EC_BACKEND_ISA_L_RS_CAUCHY)) continue;
         if (!shss_ok && c.be == EC_BACKEND_SHSS) continue;
+        if (!jer_ok && IS_JER(c.be)) continue;
+        if (!phazr_ok && c.be == EC_BACKEND_LIBPHAZR) continue;
         char ck[96]; cfg_key(&c, ck, sizeof ck);
         int n = c.k + c.m;
         /* script: encodes, decodes with data loss, reconstructs of data+parity, fragments_needed */
@@ -1397,6 +1445,10 @@ int main(int argc, char **argv)
     LEC_PROP = MO.prop;
     isal_ok = liberasurecode_backend_available(EC_BACKEND_ISA_L_RS_VAND);
     shss_ok = liberasurecode_backend_available(EC_BACKEND_SHSS);
+    phazr_ok = liberasurecode_backend_available(EC_BACKEND_LIBPHAZR);
+    mon_count0("libphazr_standin_plugin_available", phazr_ok);
+    jer_ok = liberasurecode_backend_available(EC_BACKEND_JERASURE_RS_VAND) && liberasurecode_backend_available(EC_BACKEND_JERASURE_RS_CAUCHY);
+    mon_count0("jerasure_standin_plugin_available", jer_ok);
     mon_count0("isal_reference_plugin_available", isal_ok);
     mon_count0("shss_standin_plugin_available", shss_ok);
     mon_count0("ledger_available", ledger_available());
